@@ -82,7 +82,7 @@ def run_tlc(module, cfg, workers=16, env=None, extra=(), timeout=1200, files=(),
             shutil.copy(os.path.join(SPEC, f), d)
     for f in files:
         shutil.copy(f, d)
-    cmd = ["java", "-XX:+UseParallelGC", "-Xmx8g", "-Xss512m"]
+    cmd = ["java", "-XX:+UseParallelGC", "-Xmx8g", "-Xss512m", "-Djava.io.tmpdir=" + d]
     if dfs:
         cmd.append("-Dtlc2.tool.queue.IStateQueue=StateDeque")
     cmd += ["-cp", JAR, "tlc2.TLC", "-workers", str(workers), "-metadir", os.path.join(d, "meta"),
@@ -258,7 +258,7 @@ def _simulate_one(module, cfg, num, depth, seed, var, timeout, allvars):
         if f.endswith(".tla") or f.endswith(".cfg"):
             shutil.copy(os.path.join(SPEC, f), d)
     os.mkdir(os.path.join(d, "out"))
-    cmd = ["java", "-XX:+UseParallelGC", "-Xmx4g", "-cp", JAR, "tlc2.TLC", "-workers", "1",
+    cmd = ["java", "-XX:+UseParallelGC", "-Xmx4g", "-Djava.io.tmpdir=" + d, "-cp", JAR, "tlc2.TLC", "-workers", "1",
            "-metadir", os.path.join(d, "meta"), "-noGenerateSpecTE", "-deadlock", "-config", cfg,
            "-simulate", "file=%s,num=%d" % (os.path.join(d, "out", "b"), num), "-depth", str(depth),
            "-seed", str(seed), module]
